@@ -165,6 +165,20 @@ def parent_search(prog, rep, tag):
                 if [a for a in q.field_accesses(g, "Port", "downstream_to") if a[2] in ("read", "addr")]:
                     free = True
         d["predicate:has-unassigned-port"] = free
+        # ... and the port it counts as free is never the entry port (whose downstream_to is always None: counting it
+        # makes every junction look free and the search stops at a fully populated inner fork)
+        excl = False
+        for g in seen.values():
+            if not (g.is_closure and g.locals[0]["ty"] == "bool"):
+                continue
+            # (edition 2024 closures capture `entry_port.number` itself, so the other side is an upvar)
+            sites = q.comparison_sites(g, lambda x, y: has_root(x, "field", "Port", "number") and (has_root(y, "field", "Port", "number") or any(r[0] == "upvar" for r in y)) and x != y)
+            for s_ in sites:
+                flow = q.BoolFlow(g, s_[0], s_[1], {s_[2]: s_[3]})
+                rets = [rb for rb in g.return_blocks() if rb in flow.in_state or rb == s_[0]]
+                if rets and all(flow.value_at(rb, len(g.stmts(rb)), {"copy": {"l": 0, "p": []}}) == 0 for rb in rets):
+                    excl = True
+        d["predicate:entry-port-excluded"] = excl
     # the line-end test that selects between "previous device" and "search"
     le = [cd for cd in q.conds(b) if cd.kind == "call" and cd.call is not None and cd.call.is_("PartialEq::eq", "PartialEq::ne") and any(x[0] == "agg" and x[1] == "Topology" and x[2] == "LineEnd" for a in cd.call.args for x in pr.of_operand(a))]
     d["line-end-test"] = len(le) == 1
